@@ -1,6 +1,7 @@
 package route
 
 import (
+	"errors"
 	"fmt"
 	"sync"
 	"sync/atomic"
@@ -53,6 +54,10 @@ type KafkaMdm struct {
 // NewKafkaMdm creates a special route that writes to a grafana.net datastore
 // We will automatically run the route and the destination
 func NewKafkaMdm(key string, matcher matcher.Matcher, topic, codec, schemasFile, partitionBy string, brokers []string, bufSize, orgId, flushMaxNum, flushMaxWait, timeout int, blocking bool, tlsEnabled, tlsSkipVerify bool, tlsClientCert, tlsClientKey string, saslEnabled bool, saslMechanism string, saslUsername, saslPassword string) (Route, error) {
+	wait := time.Duration(flushMaxWait) * time.Millisecond
+	if len(brokers) == 0 || bufSize < 0 || flushMaxNum < 0 || wait <= 0 {
+		return nil, errors.New("need at least one broker, bufSize and flushMaxNum must be >= 0 and flushMaxWait must be > 0")
+	}
 	schemas, err := getSchemas(schemasFile)
 	if err != nil {
 		return nil, err
@@ -71,7 +76,7 @@ func NewKafkaMdm(key string, matcher matcher.Matcher, topic, codec, schemasFile,
 
 		bufSize:      bufSize,
 		flushMaxNum:  flushMaxNum,
-		flushMaxWait: time.Duration(flushMaxWait) * time.Millisecond,
+		flushMaxWait: wait,
 
 		numErrFlush:       stats.Counter("dest=" + cleanAddr + ".unit=Err.type=flush"),
 		numOut:            stats.Counter("dest=" + cleanAddr + ".unit=Metric.direction=out"),
